@@ -358,6 +358,7 @@ class Recorder:
                     att["sa"] = int(frame.size)
                     att["enS"] = bool(sender_nic.enabled)
                     att["enR"] = bool(other.enabled)
+                    att["far"] = far_query(other, frame)   # before the delivery: receive_frame decrements the TTL in place
                 r = orig(link, sender_nic, frame)
                 if att is not None:
                     att["acc"] = bool(r)
@@ -442,6 +443,24 @@ class Recorder:
             setattr(cls, name, orig)
         self._undo = []
         return False
+
+
+def _mac_int(m) -> int:
+    return int(str(m).replace(":", ""), 16) if m else 0   # None (written by route_frame when ARP failed) -> C08's `noMac`
+
+
+def far_query(iface, frame) -> Optional[str]:
+    """What C08's acceptance model needs to know to predict the answer of `iface.receive_frame(frame)`: the `far` line of the driver
+    (without the leading word). None when the frame has no IP layer or the interface is of a kind C08 does not model."""
+    kind = {"NIC": "h", "RouterInterface": "r", "SwitchPort": "s"}.get(type(iface).__name__)
+    if kind is None or frame.ip is None:
+        return None
+    node = iface._connected_node
+    own = [int(ni.ip_address) for ni in node.network_interfaces.values() if getattr(ni, "ip_address", None) is not None] if node else []
+    ip = int(iface.ip_address) if getattr(iface, "ip_address", None) is not None else 0
+    plen = iface.ip_network.prefixlen if getattr(iface, "ip_address", None) is not None else 0
+    return (f"{kind} {int(bool(iface.enabled))} {_mac_int(iface.mac_address)} {ip} {plen} {_mac_int(frame.ethernet.dst_mac_addr)} "
+            f"{int(frame.ip.dst_ip_address)} {int(frame.ip.ttl)} {','.join(str(x) for x in own) or '-'}")
 
 
 # ------------------------------------------------------------------------------------------------- canonical forms
@@ -712,12 +731,24 @@ def run_impl(case: dict) -> dict:
 
     forest_ops: List[int] = []
     info: Dict[str, int] = {}
+    far_seen = set()
 
     def segment(oi: int, seg: List[dict], after: str):
         forests.append(seg)
         forest_ops.append(oi)
         lines.append(("act " + " ".join(tokens(seg))).strip())
         impl.append(" ".join(recs(seg)) + " | " + after)
+        # the far interface's answer against C08's acceptance model, once per distinct question
+        for e in walk(seg):
+            if e["t"] == "S" and e["tx"]:
+                if e.get("far") is None:
+                    info["far-answer-not-modelled"] = info.get("far-answer-not-modelled", 0) + 1
+                elif (e["far"], e["acc"]) not in far_seen:
+                    far_seen.add((e["far"], e["acc"]))
+                    lines.append("far " + e["far"])
+                    impl.append("1" if e["acc"] else "0")
+                    info["far-answer:" + e["far"][0] + (":taken" if e["acc"] else ":refused")] = info.get(
+                        "far-answer:" + e["far"][0] + (":taken" if e["acc"] else ":refused"), 0) + 1
         # implementation-side oracle, independent of the model
         for e in walk(seg):
             if e["t"] not in ("S", "W"):
